@@ -341,6 +341,7 @@ class CompMixin:
     b['bvshl'] = B('bvshl', _b_bvshl)
     b['vresize'] = B('vresize', _b_vresize)
     b['vpush'] = B('vpush', _b_vpush)
+    b['allocated'] = B('allocated', _b_allocated)
     b['itertools.chain'] = B('chain', _b_chain)
     b['id'] = B('id', lambda ex, a, k, n: Vl.ival(id(a[0])))
     b['False'] = Vl.bval(False)
@@ -681,6 +682,17 @@ def _b_bvshl(ex, a, k, n):
   kk = ex.as_int(a[1])
   ex.oblige(z3.And(0 <= kk, kk < 64), 'safety', 'shift amount within the word')
   return V(S.BV64, S.POW2(kk))
+
+
+def _b_allocated(ex, a, k, n):
+  """spec function: the heap object has been created (by a constructor call seen so far or before the function was entered)."""
+  v = a[0]
+  hb = ex.heap_binding(v.sort)
+  if hb is None:
+    raise Unsupported('allocated(%r): not a heap reference' % (v,))
+  (rp, cn), b = hb
+  al = ex.env['$H.%s.$alloc' % cn]
+  return V(S.BOOL, z3.Select(al.t, v.t))
 
 
 def _b_vpush(ex, a, k, n):
